@@ -295,6 +295,11 @@ class BundleFlattener(ElabPass):
                 msg += f"Has Signals `{list(flat.signals.keys())}`, "
                 msg += f"but no `{path}`."
                 self.fail(msg)
+            if flat_port.name in inst.conns:
+                # The designer connected something to the flattened name itself. (Instance arrays get here un-checked.)
+                msg = f"Connection to non-existent Port `{flat_port.name}` on Instance `{inst.name}`, "
+                msg += f"alongside that to its Bundle port `{portname}`."
+                self.fail(msg)
             inst.connect(flat_port.name, flat.signals[path])
 
     def flatten_bundle_inst(
